@@ -8,7 +8,9 @@ rows = []
 for sid in sorted(os.listdir(os.path.join(VERIF, 'seeded'))):
     m = json.load(open(os.path.join(VERIF, 'seeded', sid, 'meta.json')))
     det = m.get('detected_by') or {}
+    obs = ' *(obsolete after fix 87e9867: behaviour-neutral on the current tree; detection recorded on 78f646f)*' if m.get('obsolete') else ''
     cell = '; '.join(f"{c}: {', '.join(o[:70] for o in obs[:2])}" for c, obs in det.items()) or '**missed**'
+    cell += obs
     rows.append(f"| {sid} | {m['needs_to_manifest'][:230].replace('|', '/')} | {cell.replace('|', '/')} |")
 print('| seed | what it needs to manifest | detected by (check: obligations) |')
 print('|---|---|---|')
